@@ -102,7 +102,7 @@ C["C04"] = dict(assumptions=["torrent built by the real newTorrent; its event lo
 ])
 
 C["C17"] = dict(assumptions=["the resource manager's run loop is the real goroutine; select with several ready cases forks one path per case"], harnesses=[
-    H("ZZRequestAnswered", "internal/resourcemanager", "3 operations (request 1..3 units with the requester's cancel channel open or already closed / release) on a manager with limit 0..3: every Request returns (no deadlock of the caller), allocated size within [0, limit], object count >= 0", T(80, 900, 4, 5), T(80, 900, 4, 5)),
+    H("ZZRequestAnswered", "internal/resourcemanager", "3 operations (request 1..3 units with the requester's cancel channel open or already closed / release) on a manager with limit 0..3: every Request returns (no deadlock of the caller), allocated size within [0, limit], object count >= 0, reservations balance (booked == what requesters were told)", T(80, 900, 4, 5), T(80, 900, 4, 5), replay="model"),
 ])
 C["C12"] = dict(assumptions=["marker bytes do not occur earlier in the stream (they are SHA-1 / RC4 output)", "net.Conn replaced by an in-memory connection"], harnesses=[
     H("ZZReadSync8", "internal/mse", "readSync with an 8-byte marker after 0..6 bytes of padding, any scan limit, none/one split/byte-by-byte fragmentation: found iff the marker ends within the limit; consumes exactly up to the marker", T(80, 900), T(80, 900)),
